@@ -126,13 +126,13 @@ PGS_RACE = "data-race:dense-PGS-island-task-reads-global-efc_force-in-residual"
 
 
 def _tsan_accesses(text):
-    """[(is_write, thread, [function names of the stack])] for the racing accesses of a ThreadSanitizer data-race report"""
+    """[(is_write, thread, [function names of the stack], address)] for the racing accesses of a ThreadSanitizer data-race report"""
     acc = []
     for block in re.split(r"\n\s*\n", text):
         lines = block.strip().splitlines()
         hm = None
         for k, ln in enumerate(lines):
-            hm = re.match(r"\s*(?:Previous )?(?:atomic )?(read|write) of size \d+ at \S+ by (.+?):", ln, re.I)
+            hm = re.match(r"\s*(?:Previous )?(?:atomic )?(read|write) of size \d+ at (0x[0-9a-f]+) by (.+?):", ln, re.I)
             if hm:
                 lines = lines[k + 1:]
                 break
@@ -143,7 +143,7 @@ def _tsan_accesses(text):
             fm = re.match(r"\s*#\d+ (?:0x[0-9a-f]+ in )?(\S+)", ln)
             if fm:
                 fns.append(re.sub(r"\(.*", "", fm.group(1)))
-        acc.append((hm.group(1).lower() == "write", hm.group(2), fns))
+        acc.append((hm.group(1).lower() == "write", hm.group(3), fns, int(hm.group(2), 16)))
     return acc
 
 
@@ -156,8 +156,14 @@ def classify_tsan(kind, text, cfg):
     (a) the engine's solver is PGS, (b) the dense path is active (mj_isSparse(m) == 0 as printed by the harness before stepping),
     (c) islands are enabled and a pool with >= 1 worker is attached, and both racing accesses are inside solveIslandTask ->
     mj_solPGS_island running on different threads, (d) one access is a READ whose stack is mju_dot <- residual <- solPGS and the
-    other is a WRITE issued from solPGS (directly or via a helper it calls, e.g. mju_copy in solveQCQP)."""
-    if "data race" not in kind or not cfg:
+    other is a WRITE issued from solPGS (directly or via a helper it calls, e.g. mju_copy in solveQCQP), (e) both racing addresses lie
+    inside the mjData arena (the block that holds efc_force; range printed by the harness). The raw-frame signature of this one
+    mechanism varies with the schedule and the symboliser (which access is reported first; the write frame '#0 solPGS' sometimes has
+    no line number, so the first in-repo frame is mj_solPGS_island; the write may go through an out-of-line mju_copy; a third frame
+    is the allocation stack mju_alignedMalloc of the arena): all of these are covered because the test looks at the full stacks and
+    access types, not at the raw-frame key."""
+    head = (text.splitlines() or [""])[0]
+    if "ThreadSanitizer: data race" not in head or not cfg:
         return None
     if not (cfg.get("solver_pgs") == "1" and cfg.get("sparse") == "0" and cfg.get("islands_enabled") == "1" and int(cfg.get("nthread", 0)) >= 1):
         return None
@@ -167,6 +173,13 @@ def classify_tsan(kind, text, cfg):
     reads = [a for a in acc if not a[0]]
     writes = [a for a in acc if a[0]]
     if len(reads) != 1 or len(writes) != 1:
+        return None
+    # (e) the racing location lies inside the mjData arena, the block that holds efc_force (address range printed by the harness)
+    try:
+        lo, hi = int(cfg["arena_lo"]), int(cfg["arena_hi"])
+    except (KeyError, ValueError):
+        return None
+    if not all(lo <= a[3] < hi for a in acc):
         return None
 
     def island_task(fns):
